@@ -292,6 +292,32 @@ def case_rule(ctx, rule):
 def case_and_compare(ctx):
     F, rep = ctx.F, ctx.rep
     case_rule(ctx, "C15.R4")
+    rep.rule("C15.R8", "what may follow an article or possessive is any word: the matcher of the second word in Parser::parse_common_identifier is "
+             "exactly lexer::is_word on the token's spelling (the same notion of word the poetic literals use) -- a narrower test makes some "
+             "spellings valid as simple or proper names and invalid as common names")
+    pci = F.fn("frontend::parser::Parser::<'a>::parse_common_identifier")
+    if pci is None:
+        rep.fail("C15.R8", "anchor", "Parser::parse_common_identifier not found")
+    else:
+        rep.analysed(pci)
+        preds = []
+        for b in common.bodies_with_helpers(F, pci, depth=1):
+            if b.file != pci.file:
+                continue
+            for bi, t in b.calls():
+                if callee_def(t) == "frontend::parser::Parser::<'a>::match_and_consume" and len(t["args"]) > 1:
+                    l = op_local(t["args"][1])
+                    ty = b.local_ty(l).peel_refs() if l is not None else None
+                    if ty is not None and ty.kind() == "closure":
+                        cf = F.fn(ty.d["closure"])
+                        if cf is not None:
+                            preds.append(cf)
+        ok, why = len(preds) == 1, "" if len(preds) == 1 else "expected one closure matcher in parse_common_identifier, found %d" % len(preds)
+        if ok:
+            cs = [callee_def(t) for b in F.with_closures(preds[0]) for bi, t in b.calls() if (t["callee"].get("name") or "") not in ("deref", "as_ref", "borrow", "as_str")]
+            if cs != ["frontend::lexer::is_word"]:
+                ok, why = False, "the word after an article is tested with %s instead of lexer::is_word alone" % [x.rsplit("::", 1)[-1] if x else "?" for x in cs]
+        rep.ob("C15.R8", "common-name-word-is-any-word", ok, why, pci.loc(), how="|tok| is_word(tok.spelling)")
     rep.rule("C15.R7", "the three kinds of name live and die together: a scope's three tables (simple, common, proper) are created together and "
              "none is carried over from an earlier scope -- every table pushed onto Environment.symbols is freshly constructed (C05.R8 "
              "re-checked here), so a proper name behaves like a simple one when a block, a loop round or a call ends")
